@@ -298,7 +298,7 @@ theorem stToCoda_ok (L : Layout) (times : List Int) (i : Nat) (b : BInfo) (d : D
     · split at hs
       · cases hs
       · simp only [Option.some.injEq] at hs; subst hs
-        exact keepLeapEnd_ok _ _ (addPlain_ok _ _ (by simp) _ h)
+        exact addPlain_ok _ _ (by simp) _ h
   · simp only [Option.some.injEq] at hs; subst hs; exact h
 
 theorem stJumpBack_ok (flag : Bool) (target : Option Int) (times : List Int) (i : Nat) (d : Dest) (st st' : BState)
